@@ -165,8 +165,9 @@ Proof. split; [intro i; apply listed_init|intros c []]. Qed.
 Lemma wstep_length secret w e :
   Z.of_nat (length (conns (fst (wstep secret w e)))) <= Z.of_nat (length (conns w)) + 1.
 Proof.
-  destruct e as [i|slot st n other|slot|slot|r]; cbn [wstep].
+  destruct e as [i|slot i|slot st n other|slot|slot|r]; cbn [wstep].
   - cbn [fst conns]. rewrite app_length. cbn [length]. lia.
+  - destruct (nth_error (conns w) slot) as [c|]; [|cbn; lia]. destruct (c_open c); cbn; lia.
   - destruct (nth_error (conns w) slot) as [c|]; [|cbn; lia].
     destruct (c_open c); [|cbn; lia].
     destruct (do_log _ _ _ _) as [s' r]. destruct r; try (cbn; lia).
@@ -197,7 +198,7 @@ Qed.
 Lemma census_step secret w e :
   census_inv w -> Z.of_nat (length (conns w)) + 1 < P63 -> census_inv (fst (wstep secret w e)).
 Proof.
-  intros [I1 I2] Hb. destruct e as [j|slot st n other|slot|slot|r]; cbn [wstep].
+  intros [I1 I2] Hb. destruct e as [j|slot j|slot st n other|slot|slot|r]; cbn [wstep].
   - (* EAuth *)
     destruct (do_online (logger w) j true) as [s1 r] eqn:E. cbn [fst]. split; cbn [logger conns].
     + intro i. rewrite nlisted_app. cbn [nlisted c_id c_listed].
@@ -210,6 +211,9 @@ Proof.
       * replace (nlisted i (conns w) + (0 + 0)) with (nlisted i (conns w)) by lia.
         apply L. lia.
     + intros c Hc Hop. apply in_app_or in Hc. destruct Hc as [Hc|[<-|[]]]; [auto|reflexivity].
+  - (* EAuthAgain *)
+    destruct (nth_error (conns w) slot) as [c|]; [|split; assumption].
+    destruct (c_open c); split; assumption.
   - (* EReport *)
     destruct (nth_error (conns w) slot) as [c|]; [|split; assumption].
     destruct (c_open c); [|split; assumption].
@@ -280,7 +284,8 @@ Lemma census secret evs i :
   0 <= c /\ get i (online (logger w)) = (if c =? 0 then None else Some c) /\
   snd (wstep secret w (EHttp (mkReq secret "GET" "/online" "" None))) =
     WHttp StatusOK (BOnline (online (logger w))) /\
-  nopen i (conns w) <= c /\ (quiescent (conns w) -> c = nopen i (conns w)).
+  nopen i (conns w) <= c /\ (quiescent (conns w) -> c = nopen i (conns w)) /\
+  (forall slot j, fst (wstep secret w (EAuthAgain slot j)) = w).
 Proof.
   intros Hb w c.
   assert (I : census_inv w) by (apply census_run; [apply census_init|cbn; lia]).
@@ -288,8 +293,21 @@ Proof.
   split; [exact Hc|]. split; [exact Hg|]. split.
   - cbn [wstep]. unfold http_step, route. cbn [r_auth r_method r_path].
     rewrite String.eqb_refl. destruct (secret =? "")%string; reflexivity.
-  - split; [apply open_le_listed; exact I2|apply quiescent_counts].
+  - split; [apply open_le_listed; exact I2|]. split; [apply quiescent_counts|].
+    intros slot j. cbn [wstep]. destruct (nth_error (conns w) slot) as [x|]; [|reflexivity].
+    destruct (c_open x); reflexivity.
 Qed.
+
+(* the variant in which authMutex does not span check and act (model/C15_Sites.v auth_again_unlocked):
+   one connection, two overlapping auth requests - the listing shows 2 for one connection, and 1 for
+   ever after that connection is gone *)
+Lemma auth_unlocked_refuted secret :
+  let w0 := wrun secret init_world [EAuth 0%N] in
+  let w1 := auth_again_unlocked w0 0 in
+  let w2 := wrun secret w1 [EClientClose 0; EHandlerReturn 0] in
+  nlisted 0%N (conns w1) = 1 /\ get 0%N (online (logger w1)) = Some 2 /\
+  nopen 0%N (conns w2) = 0 /\ nlisted 0%N (conns w2) = 0 /\ get 0%N (online (logger w2)) = Some 1.
+Proof. cbv. repeat split; reflexivity. Qed.
 
 (* ------------------------------------------------------------------ *)
 (* 5. kick => disconnect, end to end                                   *)
